@@ -342,10 +342,10 @@ class SearchCommand(CommandSelect):
             if atom.value.upper() == b'CHARSET':
                 _, after = Space.parse(after, params)
                 string, after = AString.parse(after, params)
-                charset = str(string.value, 'ascii')
                 try:
+                    charset = str(string.value, 'ascii')
                     b' '.decode(charset)
-                except LookupError as exc:
+                except (LookupError, UnicodeError) as exc:
                     raise NotParseable(buf, b'BADCHARSET') from exc
                 return charset, after
         return None, buf
